@@ -68,7 +68,7 @@ impl Property for C10 {
         "C10"
     }
     fn tape_sizes(&self) -> (usize, usize, usize) {
-        (600, 200, 8)
+        (600, 200, 64)
     }
     fn cases(&self, tier: Tier) -> u64 {
         match tier {
@@ -173,7 +173,7 @@ impl Property for C10 {
         "tape-decoded document sequences x options (attribute prefix, text identifier and derive string from curated lists that include empty, unicode, quotes, parentheses, newline; both sort orders). The tree is rendered once with private-use sentinels as prefix/text identifier and empty derive; the expected output for the variant options is obtained by textual substitution (sentinels replaced, attribute rename line removed exactly when identifier == prefix+local name, derive line inserted before every struct iff non-empty) and must equal the actual output byte for byte; the two presets must agree up to rename lines. Non-trivial = the tree has an attribute, a text field and two or more structs and the options differ from both presets; distinct by hash of documents and options.".into()
     }
     fn assumptions(&self) -> Vec<String> {
-        vec!["option strings come from curated lists (11 prefixes, 10 text identifiers, 15 derive strings), not from arbitrary Unicode".into()]
+        vec!["option strings come from curated lists (11 prefixes, 10 text identifiers, 15 derive strings) and, one in four, random strings of up to 6/8/40 characters over a 38-character palette (punctuation, quotes, brackets, whitespace, non-ASCII)".into()]
     }
     fn describe(&self, tapes: &Tapes) -> Value {
         let mut surf = SurfaceCfg::plain();
